@@ -18,11 +18,13 @@
 EXTENDS Naturals, Sequences, FiniteSets, TLC
 
 CONSTANTS Conn, Ident, MaxAtt, Weak,
-          AVals,      \* slice of {"good","zero","N","missing","replay"}; replay = A and proof recorded byte for byte from an
-                      \* accepted exchange on ANOTHER connection (the proof is then whatever was recorded)
+          AVals,      \* slice of {"good","zero","N","missing","replay","replay_same"}; replay = A and proof recorded byte for
+                      \* byte from an accepted exchange on ANOTHER connection (the proof is then whatever was recorded);
+                      \* replay_same = A and proof recorded from an accepted exchange earlier on THIS connection
           Proofs,     \* slice of {"right","wrong","missing","nilkey"}; nilkey = the proof anybody can compute for an SRP
                       \* session whose key was never set (K = empty string)
-          Seals,      \* slice of {"this","other","zero","random","nilkey"}; nilkey = HKDF of an empty secret
+          Seals,      \* slice of {"this","other","zero","random","nilkey","recorded"}; nilkey = HKDF of an empty secret;
+                      \* recorded = the very key-exchange box sent in the accepted exchange recorded on this connection
           Bodies,     \* slice of {"genuine","badsig","mismatch","badtlv","smallorder"}; smallorder = the public key is the
                       \* neutral element of the curve and the signature is (neutral element, 0): Ed25519 verification as
                       \* implemented (no small-order check) accepts it for EVERY message, so it needs no knowledge of S
@@ -34,15 +36,16 @@ VARIABLES step,    \* [Conn -> {"Waiting","StartResp","VerifyResp","Done"}]
           att,     \* [Conn -> 0..MaxAtt]  verify attempts with an acceptable A so far
           pS,      \* [Conn -> 0..MaxAtt]  the secret / key the PEER holds (0 = none; it can always use nil / zero)
           proved,  \* [Conn -> BOOLEAN]    ghost: a right proof was accepted since the last accepted start
+          rec,     \* [Conn -> 0..MaxAtt]  the attempt whose verify (and key exchange) an eavesdropper recorded on this connection
           store,   \* SUBSET Ident
           last
 
-vars == <<step, S, K, att, pS, proved, store, last>>
+vars == <<step, S, K, att, pS, proved, rec, store, last>>
 Guard(g) == g \notin Weak
 Deg == MaxAtt + 1
 
 Init == /\ step = [c \in Conn |-> "Waiting"] /\ S = [c \in Conn |-> 0] /\ K = [c \in Conn |-> 0]
-        /\ att = [c \in Conn |-> 0] /\ pS = [c \in Conn |-> 0] /\ proved = [c \in Conn |-> FALSE]
+        /\ att = [c \in Conn |-> 0] /\ pS = [c \in Conn |-> 0] /\ proved = [c \in Conn |-> FALSE] /\ rec = [c \in Conn |-> 0]
         /\ store = {} /\ last = [c |-> "none", m |-> [t |-> "none"], r |-> "none"]
 
 Reply(c, m, r) == last' = [c |-> c, m |-> m, r |-> r]
@@ -56,13 +59,13 @@ Start(c) ==
           /\ proved' = [proved EXCEPT ![c] = FALSE]
           /\ Reply(c, m, "M2")
      ELSE /\ Reset(c) /\ proved' = proved /\ Reply(c, m, "HttpError")
-  /\ UNCHANGED <<S, K, att, pS, store>>
+  /\ UNCHANGED <<S, K, att, pS, rec, store>>
 
 \* ---- unknown method (:53-59) / unknown step (:85-87): no state change
 Reject(c, kind) ==
   /\ kind \in {"BadMethod", "UnknownStep"}
   /\ Reply(c, [t |-> kind], "HttpError")
-  /\ UNCHANGED <<step, S, K, att, pS, proved, store>>
+  /\ UNCHANGED <<step, S, K, att, pS, proved, rec, store>>
 
 \* ---- M3: :71-77, 120-157
 Verify(c, A, proof) ==
@@ -70,29 +73,39 @@ Verify(c, A, proof) ==
   /\ A \in AVals /\ proof \in Proofs
   /\ A \in {"good", "replay"} => att[c] < MaxAtt
   /\ A = "replay" => (proof = "right" /\ \E o \in Conn \ {c} : pS[o] # 0)
+  /\ A = "replay_same" => (proof = "right" /\ rec[c] # 0)
   /\ IF step[c] # "StartResp"
-     THEN /\ Reset(c) /\ Reply(c, m, "HttpError") /\ UNCHANGED <<S, K, att, pS, proved, store>>
+     THEN /\ Reset(c) /\ Reply(c, m, "HttpError") /\ UNCHANGED <<S, K, att, pS, proved, rec, store>>
+     ELSE IF A = "replay_same"
+     \* The SRP server session (b, B, salt) is made anew whenever the machine is reset (guard session_fresh_after_reset), so a
+     \* verify message recorded in an earlier exchange on this connection carries a proof for another B.  Without the guard
+     \* B never changes on a connection: the recorded proof is right again and yields the recorded keys.
+     THEN IF Guard("session_fresh_after_reset")
+          THEN /\ Reset(c) /\ Reply(c, m, "M4err2") /\ UNCHANGED <<S, K, att, pS, proved, rec, store>>
+          ELSE /\ step' = [step EXCEPT ![c] = "VerifyResp"]
+               /\ S' = [S EXCEPT ![c] = rec[c]] /\ K' = [K EXCEPT ![c] = rec[c]]
+               /\ Reply(c, m, "M4proof") /\ UNCHANGED <<att, pS, proved, rec, store>>
      ELSE IF A \notin {"good", "replay"}      \* ComputeKey rejects A mod N = 0 (a missing A is empty = 0): :128-131
      THEN IF Guard("bad_A_stops_exchange")
           THEN /\ step' = [step EXCEPT ![c] = IF Guard("verify_bad_A_resets") THEN "Waiting" ELSE "VerifyResp"]
-               /\ Reply(c, m, "HttpError") /\ UNCHANGED <<S, K, att, pS, proved, store>>
+               /\ Reply(c, m, "HttpError") /\ UNCHANGED <<S, K, att, pS, proved, rec, store>>
           \* without that guard the proof is compared with the one of a session whose key is whatever it was before
           \* (nil unless an earlier A was accepted), and the encryption key is derived from that secret
           ELSE IF proof = "nilkey" /\ S[c] = 0
           THEN /\ step' = [step EXCEPT ![c] = "VerifyResp"] /\ K' = [K EXCEPT ![c] = Deg]
-               /\ Reply(c, m, "M4proof") /\ UNCHANGED <<S, att, pS, proved, store>>
-          ELSE /\ Reset(c) /\ Reply(c, m, "M4err2") /\ UNCHANGED <<S, K, att, pS, proved, store>>
+               /\ Reply(c, m, "M4proof") /\ UNCHANGED <<S, att, pS, proved, rec, store>>
+          ELSE /\ Reset(c) /\ Reply(c, m, "M4err2") /\ UNCHANGED <<S, K, att, pS, proved, rec, store>>
      ELSE LET n == att[c] + 1 IN
           /\ att' = [att EXCEPT ![c] = n]
           /\ S' = [S EXCEPT ![c] = n]                       \* set before the proof is looked at
           /\ IF proof = "right" /\ A = "good"      \* a replayed proof was computed for another B: it is wrong here
              THEN /\ step' = [step EXCEPT ![c] = "VerifyResp"]
                   /\ K' = [K EXCEPT ![c] = n] /\ pS' = [pS EXCEPT ![c] = n]
-                  /\ proved' = [proved EXCEPT ![c] = TRUE]
+                  /\ proved' = [proved EXCEPT ![c] = TRUE] /\ UNCHANGED rec
                   /\ Reply(c, m, "M4proof")
              ELSE /\ step' = [step EXCEPT ![c] = IF Guard("wrong_proof_resets") THEN "Waiting" ELSE "VerifyResp"]
                   /\ Reply(c, m, "M4err2")
-                  /\ UNCHANGED <<K, pS, proved>>
+                  /\ UNCHANGED <<K, pS, proved, rec>>
           /\ UNCHANGED store
 
 \* ---- M5: :78-84, 169-253
@@ -105,30 +118,34 @@ Opens(c, seal, shape) ==
      /\ \/ seal = "this" /\ pS[c] # 0 /\ K[c] = pS[c]
         \/ seal = "zero" /\ K[c] = 0
         \/ seal = "nilkey" /\ K[c] = Deg
+        \/ seal = "recorded" /\ rec[c] # 0 /\ K[c] = rec[c]
 \* the signature covers HKDF(S): it verifies when the peer signed with the secret the server holds
 SigOK(c, seal, body) ==
   \/ body = "smallorder"
-  \/ body = "genuine" /\ S[c] = (IF seal = "this" THEN pS[c] ELSE 0)
+  \/ body = "genuine" /\ S[c] = (IF seal = "this" THEN pS[c] ELSE IF seal = "recorded" THEN rec[c] ELSE 0)
   \/ body \in {"badsig", "mismatch"} /\ ~Guard("signature_checked")
 
 Kex(c, seal, body, shape, id) ==
   LET m == [t |-> "Kex", seal |-> seal, body |-> body, shape |-> shape, id |-> id] IN
   /\ seal \in Seals /\ body \in Bodies /\ shape \in Shapes
   /\ seal = "this" => pS[c] # 0                    \* a peer cannot seal under a key it does not hold
+  /\ seal = "recorded" => (rec[c] # 0 /\ body = "genuine" /\ shape = "ok")   \* the recorded bytes as they were
   /\ IF step[c] # "VerifyResp" /\ Guard("step_checked_before_kex")
-     THEN /\ Reset(c) /\ Reply(c, m, "HttpError") /\ UNCHANGED <<S, K, att, pS, proved, store>>
+     THEN /\ Reset(c) /\ Reply(c, m, "HttpError") /\ UNCHANGED <<S, K, att, pS, proved, rec, store>>
      ELSE IF shape \in {"short", "empty"}
-     THEN /\ Reset(c) /\ Reply(c, m, "M6err") /\ UNCHANGED <<S, K, att, pS, proved, store>>
+     THEN /\ Reset(c) /\ Reply(c, m, "M6err") /\ UNCHANGED <<S, K, att, pS, proved, rec, store>>
      ELSE IF ~Opens(c, seal, shape)
-     THEN /\ Reset(c) /\ Reply(c, m, "M6err") /\ UNCHANGED <<S, K, att, pS, proved, store>>
+     THEN /\ Reset(c) /\ Reply(c, m, "M6err") /\ UNCHANGED <<S, K, att, pS, proved, rec, store>>
      ELSE IF body = "badtlv"
      THEN /\ step' = [step EXCEPT ![c] = "Done"] /\ Reply(c, m, "HttpError")
-          /\ UNCHANGED <<S, K, att, pS, proved, store>>
+          /\ UNCHANGED <<S, K, att, pS, proved, rec, store>>
      ELSE IF ~SigOK(c, seal, body)
-     THEN /\ Reset(c) /\ Reply(c, m, "M6err") /\ UNCHANGED <<S, K, att, pS, proved, store>>
+     THEN /\ Reset(c) /\ Reply(c, m, "M6err") /\ UNCHANGED <<S, K, att, pS, proved, rec, store>>
      ELSE /\ step' = [step EXCEPT ![c] = "Done"]
           /\ store' = store \cup {id}
           /\ Reply(c, m, "M6ok")
+          \* an eavesdropper has now seen a complete accepted exchange on this connection
+          /\ rec' = [rec EXCEPT ![c] = IF seal = "this" /\ K[c] <= MaxAtt THEN K[c] ELSE @]
           /\ UNCHANGED <<S, K, att, pS, proved>>
 
 Next == \E c \in Conn :
@@ -154,5 +171,5 @@ TypeOK == /\ step \in [Conn -> {"Waiting", "StartResp", "VerifyResp", "Done"}]
           /\ store \subseteq Ident
 KeyNeedsProof == \A c \in Conn : K[c] # 0 => pS[c] = K[c]      \* in particular K is never Deg
 
-View == <<step, S, K, att, pS, proved, store>>
+View == <<step, S, K, att, pS, proved, rec, store>>
 =======================================================================
